@@ -199,7 +199,7 @@ def channel_size(ch):
 def dfsr_record(d):
     out = bytearray(bytes([64, 0]))
     frame_size = sum(channel_size(c) for c in d['channels'])
-    blocks = [entry_block(1, 66, 0), entry_block(2, 66, 0), entry_block(3, 79, min(frame_size, 32767)), entry_block(4, 66, d['updown']),
+    blocks = [entry_block(1, 66, d.get('data_type', 0)), entry_block(2, 66, 0), entry_block(3, 79, min(frame_size, 32767)), entry_block(4, 66, d['updown']),
               entry_block(5, 66, {1: 1, 255: 1, 0: 0}[d['updown']])]
     if d['indirect'] or d.get('always_spacing'):
         blocks += [entry_block(8, 68, d['spacing']), entry_block(9, 65, _fix(d['units'], 4))]
@@ -218,7 +218,7 @@ def dfsr_record(d):
 
 
 def data_record(d, frames, x_word):
-    out = bytearray(bytes([0, 0]))
+    out = bytearray(bytes([d.get('data_type', 0), 0]))
     if d['indirect']:
         out += word_bytes(d['xrc'], x_word)
     for fr in frames:
@@ -237,20 +237,32 @@ def logical_records(model):
     if 'tape' in model['pre']:
         recs.append((('tape-head',), reel_tape_head_tail(130, 'TAPE0001', '')))
     prlen = model['phys']['prlen']
-    ref = []
+    ref = []          # one entry per log pass, in the order of their DFSRs in the file
     for fi, f in enumerate(model['files']):
         recs.append((('file-head', fi), file_head_tail(128, f['name'], '' if fi == 0 else model['files'][fi - 1]['name'], min(prlen, 99999))))
         for ti, tab in enumerate(f['tables']):
             recs.append((('table', fi, tab['name']), table_record(tab)))
-        recs.append((('dfsr', fi), dfsr_record(f['dfsr'])))
-        first = len(recs)
-        k = 0
-        for ri, n in enumerate(f['per_record']):
-            xw = f['x_words'][ri] if f['dfsr']['indirect'] else None
-            recs.append((('data', fi, ri), data_record(f['dfsr'], f['frames'][k:k + n], xw)))
-            k += n
-        assert k == len(f['frames'])
-        ref.append({'first_data_record': first, 'n_records': len(f['per_record'])})
+        plist = [('main', f)] + ([('alt', f['alt'])] if f.get('alt') else [])
+        if f.get('alt') and f['alt'].get('first'):
+            plist.reverse()
+        pref = {}
+        for which, pd in plist:
+            pref[which] = {'file': fi, 'which': which, 'dfsr_record': len(recs), 'records': []}
+            recs.append((('dfsr', fi, which), dfsr_record(pd['dfsr'])))
+        cursors = {which: [0, 0] for which, _ in plist}        # [record number, frame number]
+        order = f['alt']['order'] if f.get('alt') else [0] * len(f['per_record'])
+        for sel in order:
+            which = 'alt' if sel else 'main'
+            pd = f['alt'] if sel else f
+            ri, k = cursors[which]
+            n = pd['per_record'][ri]
+            xw = pd['x_words'][ri] if pd['dfsr']['indirect'] else None
+            pref[which]['records'].append(len(recs))
+            recs.append((('data', fi, which, ri), data_record(pd['dfsr'], pd['frames'][k:k + n], xw)))
+            cursors[which] = [ri + 1, k + n]
+        for which, pd in plist:
+            assert cursors[which] == [len(pd['per_record']), len(pd['frames'])], 'order does not consume every data record'
+            ref.append(pref[which])
         if model['post']:
             recs.append((('file-tail', fi), file_head_tail(129, f['name'], '', min(prlen, 99999))))
     if model['post']:
@@ -282,9 +294,20 @@ def build(model):
     LP.fix_reversed(pm)
     by, layout = LP.build(pm)
     layout['what'] = [w for w, _ in recs]
-    layout['files'] = ref
+    layout['passes'] = ref
     layout['tif'] = pm['tif']
     return by, layout
+
+
+def passes_of(model):
+    """The log passes of the model as (file index, 'main'|'alt', pass dict) in the order of their DFSRs in the file."""
+    out = []
+    for fi, f in enumerate(model['files']):
+        pl = [(fi, 'main', f)] + ([(fi, 'alt', f['alt'])] if f.get('alt') else [])
+        if f.get('alt') and f['alt'].get('first'):
+            pl.reverse()
+        out.extend(pl)
+    return out
 
 
 def x_of_frame(f, k):
@@ -370,16 +393,59 @@ def gen_file(rng, fi, max_frames=40, names_pool=None):
     return {'name': f'FILE  .{fi + 1:03d}', 'tables': tables, 'dfsr': d, 'per_record': per_record, 'x_words': x_words, 'frames': frames}
 
 
-def gen_model(rng, max_frames=40, names_pool=None, max_files=2, small_pr=False):
+def gen_alt(rng, main, max_frames, names_pool):
+    """A second, simultaneous log pass in the same logical file: its DFSR describes 'alternate' data records (type 1),
+    which are interleaved with the normal (type 0) data records of the main pass."""
+    alt = gen_file(rng, 0, max_frames, names_pool)
+    a = {'dfsr': dict(alt['dfsr'], data_type=1), 'per_record': alt['per_record'], 'x_words': alt['x_words'], 'frames': alt['frames'],
+         'first': rng.chance(0.4)}
+    order = [0] * len(main['per_record']) + [1] * len(a['per_record'])
+    rng.shuffle(order)
+    a['order'] = order
+    return a
+
+
+def gen_model(rng, max_frames=40, names_pool=None, max_files=2, small_pr=False, allow_alt=False):
     rec = rng.chance(0.25)
     filen = rng.pick([None, None, None, 1, 7])
     chk = rng.chance(0.2)
     tl = (2 if rec else 0) + (2 if filen is not None else 0) + (2 if chk else 0)
     prlen = rng.wpick([(3, 1024), (2, rng.pick([256, 512, 4096, 8192])), (2, rng.randrange(4 + tl + 40, 400)), (1, rng.randrange(4 + tl + 8, 64)), (1, 65535)])
+    parity_shape = False
     if small_pr:
         prlen = rng.randrange(4 + tl + 12, 4 + tl + 40)      # hundreds of physical records even for a small file
+        if rng.chance(0.5):
+            # a long run of even-length physical records followed, much later, by odd-length ones (padding heuristics
+            # of readers look at the first records only)
+            parity_shape = True
+            prlen += prlen % 2
     tif = rng.wpick([(4, 'none'), (3, 'normal'), (1, 'reversed')])
     pre = rng.pick([[], [], ['tape'], ['reel', 'tape'], ['reel']])
     nfiles = rng.wpick([(6, 1), (2, max_files)])
     return {'phys': {'prlen': prlen, 'rec': rec, 'file': filen, 'chk': chk, 'tif': tif, 'chunk_seed': rng.getrandbits(32) if rng.chance(0.3) else None},
-            'pre': pre, 'post': rng.chance(0.7), 'files': [gen_file(rng, fi, max_frames, names_pool) for fi in range(nfiles)]}
+            'pre': pre, 'post': rng.chance(0.7), 'files': _gen_files(rng, 2 if parity_shape else nfiles, max_frames, names_pool, allow_alt, parity_shape)}
+
+
+def _gen_files(rng, nfiles, max_frames, names_pool, allow_alt, parity_shape=False):
+    files = [gen_file(rng, fi, max_frames, names_pool) for fi in range(nfiles)]
+    if parity_shape:
+        even = [49, 50, 68, 70, 73, 79]
+        f0, f1 = files[0], files[1]
+        for ci, ch in enumerate(f0['dfsr']['channels']):
+            if RC_SIZE[ch['rc']] % 2:
+                ch['rc'] = rng.pick(even)
+                for fr in f0['frames']:
+                    fr[ci] = [gen_word(rng, ch['rc']) for _ in fr[ci]]
+        # second logical file: one byte channel, odd number of frames per record
+        ch = f1['dfsr']['channels'][-1] if len(f1['dfsr']['channels']) > 1 else None
+        if ch is not None:
+            ci = len(f1['dfsr']['channels']) - 1
+            ch.update(rc=rng.pick([56, 66, 77]), samples=1, bursts=1)
+            for fr in f1['frames']:
+                fr[ci] = [gen_word(rng, ch['rc'])]
+        f0['tables'] = [t for t in f0['tables']]
+    if allow_alt:
+        for f in files:
+            if rng.chance(0.2):
+                f['alt'] = gen_alt(rng, f, max_frames, names_pool)
+    return files
